@@ -16,7 +16,7 @@
      NV.CramRec.Container  build_container bookkeeping (io/writer/container.rs), Block::size and
                            write_block (io/writer/container/block.rs), record counters (io/writer.rs) *)
 From Coq Require Import List NArith ZArith.
-From NV Require Import CramRec.Features CramRec.FeaturesProofs CramRec.FeaturesTotal CramRec.Container CramRec.ContainerProofs CramRec.Mates CramRec.MatesProofs CramRec.MatesChain CramRec.MatesWriter CramRec.MatesLoop CramRec.MatesBytes CramRec.MatesBytesProofs CramRec.SliceHeader CramRec.SliceHeaderProofs.
+From NV Require Import CramRec.Features CramRec.FeaturesProofs CramRec.FeaturesTotal CramRec.Container CramRec.ContainerProofs CramRec.ContainerItf8 CramRec.Mates CramRec.MatesProofs CramRec.MatesChain CramRec.MatesWriter CramRec.MatesLoop CramRec.MatesBytes CramRec.MatesBytesProofs CramRec.SliceHeader CramRec.SliceHeaderProofs.
 Import ListNotations.
 Open Scope N_scope.
 
@@ -159,6 +159,29 @@ Theorem c07_block_size_is_serialised_length : forall crc b sz,
   block_size b = Some sz -> N.of_nat (length (write_block crc b)) = sz.
 Proof. exact write_block_length. Qed.
 Print Assumptions c07_block_size_is_serialised_length.
+
+(* Block::size counts each ITF8 size field with itf8_size_of; write_block writes it with write_itf8
+   (NV.Cram.Itf8, the bit-exact model of io/writer/num/itf8.rs): for EVERY i32 the counted width is
+   the number of bytes written - in particular at the width boundaries 127/128, 16383/16384,
+   2097151/2097152, 2^28-1/2^28 and for negative numbers (5 bytes).  The Container model's own
+   itf8_bytes is the same function as Itf8.itf8_enc.  (A writer counting a size in 16384..32767
+   as two bytes declares a container length and landmarks one byte short per such field.) *)
+Theorem c07_itf8_size_of_is_written_length : forall n : Z,
+  N.of_nat (length (NV.Cram.Itf8.write_itf8 n)) =
+  NV.CramRec.Container.itf8_size_of (NV.Cram.Itf8.u32_of_i32 n).
+Proof. exact itf8_size_of_is_written_length. Qed.
+Print Assumptions c07_itf8_size_of_is_written_length.
+
+Theorem c07_container_itf8_is_cram_itf8 : forall u, u < 4294967296 ->
+  NV.CramRec.Container.itf8_bytes u = NV.Cram.Itf8.itf8_enc u.
+Proof. exact itf8_bytes_is_enc. Qed.
+Print Assumptions c07_container_itf8_is_cram_itf8.
+
+Example c07_itf8_width_boundaries :
+  map (fun n => length (NV.Cram.Itf8.write_itf8 n))
+      [127; 128; 16383; 16384; 32767; 2097151; 2097152; 268435455; 268435456; -1]%Z
+  = [1; 2; 2; 3; 3; 3; 4; 4; 5; 5]%nat.
+Proof. exact itf8_width_boundaries. Qed.
 
 Theorem c07_container_invariants :
   forall ch slices rls counter h blocks,
